@@ -337,6 +337,7 @@ def body_envs(items, db, env, multiset_agg=None):
         elif fn == "min": res = [[min(b[0] for b in bag)]] if bag else []
         elif fn == "max": res = [[max(b[0] for b in bag)]] if bag else []
         elif fn == "not": res = [[]] if not bag else []
+        elif fn == "minmax": res = [[min(b[0] for b in bag)], [max(b[0] for b in bag)]] if bag else []      # user-defined: TWO values, the rule fires once per value
         elif fn == "argmin": res = [[min(tuple(b) for b in bag)[1]]] if bag else []      # user-defined (harness common.rs): item of the least (cost, item)
         for o in res:
             e2 = dict(env)
